@@ -684,6 +684,15 @@ class PEP(object):
         self.G_value = G_value
         self.F_value = F_value
         self._eval_points_and_function_values(F_value, G_value, verbose=verbose)
+
+        # The dimension reduction problems only require the objective to stay close to its optimal value.
+        # Give it the value it stands for: the smallest performance metric of the low-dimensional example.
+        if dimension_reduction_heuristic:
+            wc_value = min([metric.eval() for metric in self.list_of_performance_metrics])
+            self.F_value = np.array(F_value)
+            self.F_value[self.objective.counter] = wc_value
+            self.objective._value = wc_value
+
         dual_objective = self.check_feasibility(wc_value, verbose=verbose)
 
         # Return the value of the minimal performance metric
